@@ -153,8 +153,16 @@ fn random(_t: Tier) -> BoxedStrategy<Case> {
         base.truncate(6);
         (base, [shared, t].concat())
     });
-    let pair = prop_oneof![independent, related];
-    (pair, any::<bool>(), vec(any::<bool>(), 6), vec(any::<bool>(), 6))
+    // deep trees: dozens of levels to climb or to descend
+    let deep = (vec(name(), 0..=5), vec(name(), 8..=40), vec(name(), 0..=40)).prop_map(|(shared, b, t)| {
+        let mut target = [shared.clone(), t].concat();
+        if target.is_empty() {
+            target.push("a");
+        }
+        ([shared, b].concat(), target)
+    });
+    let pair = prop_oneof![4 => independent, 4 => related, 1 => deep];
+    (pair, any::<bool>(), vec(any::<bool>(), 48), vec(any::<bool>(), 48))
         .prop_map(|((base, target), abs, bs, ts)| Case {
             base: render(abs, &base, |i| SEPS[bs[i] as usize]),
             target: render(abs, &target, |i| SEPS[ts[i] as usize]),
